@@ -175,6 +175,8 @@ def c03(tier, seed):
     units += shards("hist", "hist", 4 if q else 16, seed + 17, dict(histories=5 if q else 20, len=40))
     # every entry of the decoding tables once (a wrong entry is a wrong round trip for a narrow set of inputs)
     units += cfg_shards("tables", "tables", NR, seed, dict(full=0, frac=64), pick=pick_from(TABLE_CFGS, 4 if q else 8, seed + 4))
+    # the debug profile (debug assertions and overflow checks inside the library)
+    units += cfg_shards("codes-concat-dev", "codes", 15, seed + 2, dict(mode="concat", full=0), pick=pick_cfgs(15, 2 if q else 6, seed), variant=DEV)
     return dict(
         mc=[MC_CODES],
         rule="(a) TLC checks the codebook theorems (Dec(Enc(n) o tail) = n, position = CLen, prefix-freeness) on "
@@ -258,6 +260,8 @@ def c07(tier, seed):
     units += code_units("offsets", tier, seed + 3, 8, 30)
     # positions after look-aheads that fail or run past the data: every code placed j bits before the end
     units += cfg_shards("crossing", "crossing", 14, seed + 1, dict())
+    units += cfg_shards("seeks-dev", "rstates", NR, seed + 2, dict(paths=RP, ops="c07", full=0, images=1),
+                        pick={19, 47} if q else {19, 47, 13, 41, 25, 53}, variant=DEV)
     return dict(
         needs_gen=True,
         mc=[m for m in reader_mcs(tier)],
@@ -282,6 +286,9 @@ def c08(tier, seed):
     else:
         units += cfg_shards("copy-nci", "copy", NR, seed + 1, dict(rpaths=RP, wpaths=WP, full=0),
                             pick=pick_cfgs(NR, 4, seed + 5), variant=("release", "no_copy_impls"))
+    # the debug profile (the optimised copies call the primitives at the edge of their 64-bit contract)
+    units += cfg_shards("copy-dev", "copy", NR, seed + 2, dict(rpaths=RP, wpaths=WP, full=0),
+                        pick={18, 46} if q else {18, 46, 12, 40, 24, 52}, variant=DEV)
     return dict(
         needs_gen=True,
         mc=writer_mcs(tier) + reader_mcs(tier),
@@ -314,6 +321,9 @@ def c12(tier, seed):
     units = cfg_shards("iow", "wstates", NW, seed, dict(paths=WP, ops="c12", full=0 if q else 1))
     units += cfg_shards("ior", "rstates", NR, seed, dict(paths=RP, ops="c12", full=0 if q else 1, images=2 if q else 3))
     units += shards("hist", "hist", 4 if q else 16, seed + 5, dict(histories=5 if q else 20, len=40))
+    # the debug profile: the widest writer words and 64-bit / unbuffered readers
+    units += cfg_shards("iow-dev", "wstates", NW, seed + 1, dict(paths=WP, ops="c12", full=0), pick={16, 37, 12, 33}, variant=DEV)
+    units += cfg_shards("ior-dev", "rstates", NR, seed + 1, dict(paths=RP, ops="c12", full=0, images=1), pick={18, 46, 24, 52}, variant=DEV)
     return dict(
         needs_gen=True,
         mc=[m for m in writer_mcs(tier)],
